@@ -372,6 +372,11 @@ def negotiated (h : SessHead) : Negotiated :=
       | some .snappy => h.comps.contains "snappy"
       | none => false }
 
+/-- What the `VerifConn` pass-through (`connection_verif.rs`, written for the check — NOT production defaulting) hands to
+`*_with_consistency`: `determine_consistency(connection default)` and `serial_consistency.flatten()`. -/
+def hookCons (cfg : StmtConfig) : Consistency := cfg.consistency.getD .localQuorum
+def hookSerial (cfg : StmtConfig) : Option SerialConsistency := cfg.serialConsistency.join
+
 def connCtx (h : SessHead) : ConnCtx :=
   { defaultConsistency := .localQuorum, genTimestamp := h.genr, metadataIdExt := h.ext }
 
@@ -428,7 +433,7 @@ def runSess (fields : List String) (impl : String) : String :=
     | "query", [text, c, sc, ts, tr, ps, pg] =>
       match bytesTok text, cfgToks [c, sc, ts, tr], pageSizeTok ps, optBytesTok pg with
       | some text, some cfg, some ps, some pg =>
-        finishFrames (reqFrame comp cfg.tracing (queryRequest text cfg conn ps pg))
+        finishFrames (reqFrame comp cfg.tracing (queryRequest text (hookCons cfg) (hookSerial cfg) cfg conn ps pg))
       | _, _, _, _ => "bad-case"
     | "execute", [text, id, bind, rcols, mid, uc, c, sc, ts, tr, ps, pg, vals] =>
       match prepInfoToks h [text, id, bind, rcols, mid], boolTok uc, cfgToks [c, sc, ts, tr], pageSizeTok ps,
@@ -437,7 +442,7 @@ def runSess (fields : List String) (impl : String) : String :=
         match prepareFrame comp text, mkSerVals vals with
         | some pf, .ok _ =>
           finishFrames (pf :: reqFrame comp cfg.tracing
-            (executeRequest { info with useCachedResultMetadata := uc } vals cfg conn ps pg))
+            (executeRequest { info with useCachedResultMetadata := uc } vals (hookCons cfg) (hookSerial cfg) cfg conn ps pg))
         | some _, .error e => "err values:" ++ errStr e
         | none, _ => "bad-case"
       | _, _, _, _, _, _ => "bad-case"
@@ -474,13 +479,83 @@ def runSess (fields : List String) (impl : String) : String :=
           let observed := implFrames.drop pre.length
           let tpOrdered := if isPerm observed tpFrames then observed else tpFrames
           let batch : List String :=
-            match batchRequestBody server ty stmts rows cfg conn with
+            match batchRequestBody server ty stmts rows (hookCons cfg) (hookSerial cfg) cfg conn with
             | .ok b => [frameStr comp cfg.tracing Generated.requestOpcode_Batch b]
             | .error _ => []
           finishFrames (pre ++ tpOrdered ++ batch)
       | _, _, _, _ => "bad-case"
     | _, _ => "bad-case"
   | _, _ => "bad-case"
+
+/-! ### `glue …`: a real `Session` (production defaulting; see `harness/src/c09/sessglue.rs`) -/
+
+def serialOptTok : String → Option (Option SerialConsistency)
+  | "N" => some none | "Serial" => some (some .serial) | "LocalSerial" => some (some .localSerial) | _ => none
+
+def profTok (s : String) : Option (Option ExecProfile) :=
+  if s == "-" then some none
+  else match s.splitOn "/" with
+    | [c, sc] =>
+      match consistencyTok c, serialOptTok sc with
+      | some c, some sc => some (some ⟨c, sc⟩)
+      | _, _ => none
+    | _ => none
+
+def idTok (s : String) : Option (Option Bytes) :=
+  if s == "N" then some none else (bytesTok s).map some
+
+/-- `<opcode>:<consistency>:<serial|->:<page size|->:<tracing bit>:<timestamp|->:<paging state|N>` of a QUERY/EXECUTE record. -/
+def glueFrame (op : Nat) (p : Params) (tracing : Bool) : String :=
+  hex2 op ++ ":" ++ toString (consistencyCode p.consistency) ++ ":" ++
+  (match p.serialConsistency with | some s => toString (serialConsistencyCode s) | none => "-") ++ ":" ++
+  (match p.pageSize with | some v => toString v.toInt | none => "-") ++ ":" ++ (if tracing then "1" else "0") ++ ":" ++
+  (match p.timestamp with | some v => toString v.toInt | none => "-") ++ ":" ++
+  (match p.pagingState with | some b => toHex b | none => "N")
+
+def glueReqFrame (r : Req) (tracing : Bool) : String :=
+  match r with
+  | .query _ p => glueFrame (opcode r) p tracing
+  | .execute _ _ p => glueFrame (opcode r) p tracing
+  | _ => "?"
+
+def runGlue (f : List String) (impl : String) : String :=
+  if impl.startsWith "e2e-skip" then impl   -- the session could not be built: nothing was judged
+  else
+  match f with
+  | [sc, ss, sp, genr, dn, dv, an, av, ci, op, c, ser, ts, tr, ps, pages] =>
+    match consistencyTok sc, serialOptTok ss, profTok sp, i64Tok genr, idTok dn, idTok dv, idTok an, idTok av, idTok ci,
+          cfgToks [c, ser, ts, tr], i32Tok ps, pages.toNat? with
+    | some sc, some ss, some sp, some genr, some dn, some dv, some an, some av, some ci, some cfg, some (some ps), some pages =>
+      if ps.toInt ≤ 0 || pages < 1 || pages > 20 then "bad-case"
+      else
+        let sd : ExecProfile := ⟨sc, ss⟩
+        let conn : ConnCtx := { defaultConsistency := .localQuorum, genTimestamp := genr, metadataIdExt := false }
+        let ident : Identity := { driverName := dn, driverVersion := dv, applicationName := an, applicationVersion := av, clientId := ci }
+        let identity := "identity=" ++ ",".intercalate ((sortPairs (identityOptions ident)).map
+          (fun kv => toHex kv.1 ++ "=" ++ toHex kv.2))
+        let states : List Bytes := (List.range (pages - 1)).map (fun j => [UInt8.ofNat (j + 1)])
+        let info : PreparedInfo := { id := [], resultColCount := 2, resultMetadataId := none, useCachedResultMetadata := false }
+        let frames : Option (List String) :=
+          match op with
+          | "query_unpaged" => some [glueReqFrame (sessionQuery [] cfg sp sd conn .unpaged ps none) cfg.tracing]
+          | "query_page" => some [glueReqFrame (sessionQuery [] cfg sp sd conn .paged ps none) cfg.tracing]
+          | "query_iter" => some ((none :: states.map some).map (fun st =>
+              glueReqFrame (sessionQuery [] cfg sp sd conn .paged ps st) cfg.tracing))
+          | "execute_unpaged" => some [glueReqFrame (sessionExecute info [] cfg sp sd conn .unpaged ps none) cfg.tracing]
+          | "execute_page" => some [glueReqFrame (sessionExecute info [] cfg sp sd conn .paged ps none) cfg.tracing]
+          | "execute_iter" => some ((sessionIterExecutes info [] cfg sp sd conn ps states).map (fun r => glueReqFrame r cfg.tracing))
+          | "batch" =>
+            let prof := chosenProfile sp sd
+            some [glueFrame Generated.requestOpcode_Batch
+              { consistency := sessionConsistency cfg prof, serialConsistency := sessionSerial cfg prof,
+                timestamp := requestTimestamp cfg conn, pageSize := none, pagingState := none, skipMetadata := false,
+                values := [] } cfg.tracing]
+          | _ => none
+        match frames with
+        | some fr => (identity ++ " frames=" ++ toString fr.length ++ " " ++ " ".intercalate fr).trimAscii.toString
+        | none => "bad-case"
+    | _, _, _, _, _, _, _, _, _, _, _, _ => "bad-case"
+  | _ => "bad-case"
 
 end Sess
 
@@ -491,6 +566,7 @@ def run (case impl : String) : String :=
     | some n => bigLen what n
     | none => "bad-case"
   | "sess" :: fields => runSess fields impl
+  | "glue" :: fields => runGlue fields impl
   | ["decomp", comp, body] =>
     match compTok comp, bytesTok body with
     | some (some c), some b => runDecomp c b impl
